@@ -178,6 +178,8 @@ def axioms():
     A('addall_len', ForAll([s, t], slen(addall(s, t)) >= slen(s), patterns=[addall(s, t)]))
     M = Const('M', MapS)
     A('smap_len', ForAll([M, s], slen(smap(M, s)) == slen(s), patterns=[smap(M, s)]))
+    A('smap_nil', ForAll([M], smap(M, sempty) == sempty, patterns=[smap(M, sempty)]))
+    A('smap_snoc', ForAll([M, s, x], smap(M, app(s, x)) == app(smap(M, s), Select(M, x)), patterns=[smap(M, app(s, x))]))
     A('smap_at', ForAll([M, s, i], Implies(And(0 <= i, i < slen(s)), at(smap(M, s), i) == Select(M, at(s, i))), patterns=[at(smap(M, s), i)]))
     # strings
     A('strlen_nonneg', ForAll([x], strlen(x) >= 0, patterns=[strlen(x)]))
